@@ -203,7 +203,11 @@ def _reconcile_attrpath_order(
     if not order:
         return values
 
-    live: dict[int, tuple[tuple[str, ...], Binding | Inherit]] = {}
+    # Keyed by object *and* position: one set object assigned under two attrpath
+    # roots (`s["c"] = s["a"]`) makes its leaves live in two places.
+    live: dict[
+        tuple[int, tuple[str, ...]], tuple[tuple[str, ...], Binding | Inherit]
+    ] = {}
 
     def walk(prefix: tuple[str, ...], items: Sequence[Binding | Inherit]) -> None:
         for item in items:
@@ -217,33 +221,38 @@ def _reconcile_attrpath_order(
                 walk(prefix + (item.name,), item.value.values)
                 continue
             segments = prefix + ((item.name,) if isinstance(item, Binding) else ())
-            live[id(item)] = (segments, item)
+            live[(id(item), segments)] = (segments, item)
 
     walk((), values)
 
     reconciled: list[Binding | Inherit | _AttrpathEntry] = []
-    seen: set[int] = set()
+    seen: set[tuple[int, tuple[str, ...]]] = set()
     unchanged = True
     for entry in order:
-        binding = entry.binding if isinstance(entry, _AttrpathEntry) else entry
-        hit = live.get(id(binding))
-        if hit is None:
+        if isinstance(entry, _AttrpathEntry):
+            binding = entry.binding
+            key = (id(binding), tuple(entry.segments))
+        else:
+            binding = entry
+            key = (
+                id(binding),
+                (binding.name,) if isinstance(binding, Binding) else (),
+            )
+        hit = live.get(key)
+        if hit is None or key in seen:
             if isinstance(entry, Binding) and entry.nested and any(
                 item is entry for item in values
             ):
                 # A multi-leaf attrpath root kept as one entry: still present.
                 reconciled.append(entry)
-                for key, (segments, _item) in live.items():
+                for other, (segments, _item) in live.items():
                     if segments[:1] == (entry.name,):
-                        seen.add(key)
+                        seen.add(other)
                 continue
             unchanged = False
             continue
-        if isinstance(entry, _AttrpathEntry) and tuple(entry.segments) != hit[0]:
-            unchanged = False
-            continue
         reconciled.append(entry)
-        seen.add(id(binding))
+        seen.add(key)
     for key, (segments, item) in live.items():
         if key in seen:
             continue
